@@ -23,7 +23,7 @@ FAIL_UD = {'x5a5a': ('raises', ''), 'x6b6b': ('release_raises', 'done with the v
            'y2222': ('raises_import', 'No module named frobnicate'), 'y3333': ('none',)}
 
 
-def compare(ck, p, data, real, model, spec, cfg_every=True, label='pel', extra=None, allow_plugins=True):
+def compare(ck, p, data, real, model, spec, cfg_every=True, label='pel', extra=None, allow_plugins=True, fixture_free=False):
     rp = {'op': 'parsePEL', 'pel': apel.describe(p) if p else None, 'data_hex': data.hex(), 'extra': extra}
     if apel.TOUCHED_SHIPPED[0]:
         # the input reached udparsers.oe500 / udparsers.m2c00 / srcparsers.oe500, which this check's environment (and hence the
@@ -42,7 +42,8 @@ def compare(ck, p, data, real, model, spec, cfg_every=True, label='pel', extra=N
         elif route_sample(ck, data):
             # the same document through the COMMAND LINE, by every route that shows one PEL: -f, -a, -j into an empty directory, and -j again
             # after the file was replaced in place by this PEL (same name, same entry id, older time stamp)
-            for route, got in cli_routes(data, allow_plugins=allow_plugins):
+            sub_ok = fixture_free and ck.dist.get('command-line route -f with a stdout that takes ASCII only', 0) < 8
+            for route, got in cli_routes(data, allow_plugins=allow_plugins, subprocess_too=sub_ok):
                 ck.count('command-line route %s' % route)
                 if got != spec[1]:
                     why = got if isinstance(got, str) else first_diff(got, spec[1])
@@ -73,7 +74,7 @@ def route_sample(ck, data):
     return True
 
 
-def cli_routes(data, allow_plugins=True):
+def cli_routes(data, allow_plugins=True, subprocess_too=False):
     """[(route, canonical document | text describing what went wrong)] for one PEL file"""
     import glob
     import os
@@ -103,6 +104,10 @@ def cli_routes(data, allow_plugins=True):
         open(f, 'wb').write(data)
         so, se, sx = clirun.run_main(['-f', f, '-E'] + P)
         out.append(('-f', doc_of(so) if sx == 0 else 'exit %d: %s' % (sx, se[-200:])))
+        if subprocess_too:
+            # a separate interpreter (none of this run's fixture modules there) whose stdout takes ASCII only
+            so, se, sx = clirun.run_sub(['-f', f, '-E'] + P, env_extra={'PYTHONIOENCODING': 'ascii'})
+            out.append(('-f with a stdout that takes ASCII only', doc_of(so) if sx == 0 else 'exit %d: %s' % (sx, se[-200:])))
         so, se, sx = clirun.run_main(['-p', d, '-a', '-E'] + P)
         out.append(('-a', doc_of(so, pick=0) if sx == 0 else 'exit %d: %s' % (sx, se[-200:])))
         od = os.path.join(tmp, 'out')
@@ -190,7 +195,7 @@ def run(tier, seed):
             ck.count('sections=%s' % ('0' if not kinds else '1-5' if len(kinds) <= 5 else '6+'))
             for k in set(kinds):
                 ck.count('kind ' + k)
-            compare(ck, p, data, real, model, spec)
+            compare(ck, p, data, real, model, spec, fixture_free=True)
         ck.dist['adjacent kind pairs covered'] = len(pairs)
     finally:
         env.uninstall()
